@@ -225,7 +225,42 @@ class Effects:
         return None
 
     # ---- modes ------------------------------------------------------------------
-    def mode_of(self, expr, func):
+    def _callers(self, func):
+        if not hasattr(self, '_rev'):
+            self._rev = {}
+            for g in self.repo.all_funcs():
+                for node, cal in self.callees(g):
+                    if isinstance(node, ast.Call):
+                        self._rev.setdefault(cal.key, []).append((g, node))
+        return self._rev.get(func.key, [])
+
+    def mode_of(self, expr, func, _depth=0):
+        m = self._mode_of(expr, func)
+        if m[0] != 'unknown' or _depth > 2 or not func.name.startswith('_') or func.name.startswith('__'):
+            return m
+        # the mode is a parameter of a private helper: what do its call sites pass?
+        from .astutil import arg_for
+        names = derived(func.node, expr)
+        ps = [p for p in func.params if p != 'self' and p in names]
+        callers = self._callers(func)
+        if len(ps) != 1 or not callers:
+            return m
+        got = []
+        for g, call in callers:
+            a = arg_for(call, func, ps[0])
+            if a is None:
+                return m
+            got.append(self.mode_of(a, g, _depth + 1))
+        if any(x[0] in ('unknown', 'fstring') for x in got):
+            return m
+        if any(x[0] == 'derived' for x in got):
+            return ('derived', sorted({n for x in got if x[0] == 'derived' for n in x[1]}))
+        vals = set()
+        for x in got:
+            vals |= set([x[1]] if x[0] == 'const' else x[1])
+        return ('constset', sorted(vals))
+
+    def _mode_of(self, expr, func):
         if expr is None:
             return ('const', 'r')
         if isinstance(expr, ast.Constant) and isinstance(expr.value, str):
